@@ -30,7 +30,7 @@ fn u(s: &str) -> u64 {
     s.parse().unwrap_or_else(|_| panic!("bad number {s:?}"))
 }
 fn cookie_str(k: u64) -> String {
-    format!("cookie{k}")
+    c17_cookie(k)
 }
 fn sname(n: u64) -> String {
     format!("s{n}")
@@ -42,21 +42,19 @@ fn unname(s: &str) -> u64 {
 /// digests known so far (bytes -> symbolic code)
 struct Digests {
     known: HashMap<Vec<u8>, u64>,
-    cookies: u64,
+    /// cookie index of the FSM under test: the only cookie the FSM itself ever hashes with
+    own: u64,
+    /// the digest this FSM last put on the wire (what a cookie-less peer could replay)
+    last_sent: Option<(Vec<u8>, u64)>,
 }
 
 impl Digests {
-    fn new() -> Self {
-        Self { known: HashMap::new(), cookies: 3 }
+    fn new(own: u64) -> Self {
+        Self { known: HashMap::new(), own, last_sent: None }
     }
     fn learn_challenge(&mut self, ch: u32) {
-        for k in 0..self.cookies {
-            let d = challenge_digest(&cookie_str(k), ch);
-            let code = 1 + ch as u64 + k * K;
-            if let Some(prev) = self.known.insert(d, code) {
-                assert_eq!(prev, code, "SHA-256 collision between symbolic digests");
-            }
-        }
+        let d = challenge_digest(&cookie_str(self.own), ch);
+        self.known.insert(d, 1 + ch as u64 + self.own * K);
     }
     fn sym(&self, d: &[u8]) -> u64 {
         self.known.get(d).copied().unwrap_or(UNKNOWN)
@@ -65,6 +63,11 @@ impl Digests {
     fn resolve(&mut self, spec: &str, issued: u32) -> (Vec<u8>, u64) {
         let p: Vec<&str> = spec.split(':').collect();
         match p[0] {
+            // echo: replay the digest the FSM itself sent last (zeros if it sent none)
+            "E" => match &self.last_sent {
+                Some((b, c)) => (b.clone(), *c),
+                None => (vec![0u8; 32], RAW + 1),
+            },
             "raw" => {
                 let j = u(p[1]);
                 let bytes = match j {
@@ -194,13 +197,14 @@ fn cview_term(v: &ClientView, dg: &Digests) -> String {
 fn run_sfsm(rest: &str) -> String {
     let mut it = rest.splitn(3, ' ');
     let start = it.next().unwrap();
-    let ck = cookie_str(u(it.next().unwrap()));
+    let own = u(it.next().unwrap());
+    let ck = cookie_str(own);
     let ops = it.next().unwrap_or("");
     let mut fsm = ServerFsm::init();
     if start == "wcs" {
         fsm.set_waiting_on_client_status();
     }
-    let mut dg = Digests::new();
+    let mut dg = Digests::new(own);
     let mut ops_out = vec![];
     let mut states = vec![];
     for op in ops.split(';') {
@@ -248,10 +252,11 @@ fn run_sfsm(rest: &str) -> String {
 
 fn run_cfsm(rest: &str) -> String {
     let mut it = rest.splitn(2, ' ');
-    let ck = cookie_str(u(it.next().unwrap()));
+    let own = u(it.next().unwrap());
+    let ck = cookie_str(own);
     let ops = it.next().unwrap_or("");
     let mut fsm = ClientFsm::init();
-    let mut dg = Digests::new();
+    let mut dg = Digests::new(own);
     let mut ops_out = vec![];
     let mut states = vec![];
     for op in ops.split(';') {
@@ -268,11 +273,13 @@ fn run_cfsm(rest: &str) -> String {
         fsm.next(m, &ck);
         let after = fsm.view();
         let mut rnd = 0u32;
-        if let ClientView::WaitingForServerChallengeAck(_, _, _, _, my, _) = &after {
+        if let ClientView::WaitingForServerChallengeAck(_, _, _, r, my, _) = &after {
             if !matches!(before, ClientView::WaitingForServerChallengeAck(..)) {
                 rnd = *my;
             }
             dg.learn_challenge(*my);
+            // the session sends ClientChallenge{challenge: my, digest: r}
+            dg.last_sent = Some((r.clone(), dg.sym(r)));
         }
         ops_out.push(format!("(({t}), {rnd})"));
         states.push(cview_term(&after, &dg));
@@ -286,6 +293,13 @@ fn main() {
         match kind {
             "sfsm" => println!("{}", run_sfsm(rest)),
             "cfsm" => println!("{}", run_cfsm(rest)),
+            // hash <k1> <ch1> <k2> <ch2>: are the two real digests equal?
+            "hash" => {
+                let w: Vec<&str> = rest.split_whitespace().collect();
+                let a = challenge_digest(&cookie_str(u(w[0])), u(w[1]) as u32);
+                let b = challenge_digest(&cookie_str(u(w[2])), u(w[3]) as u32);
+                println!("({}, {})", coq_bool(a == b), a.len());
+            }
             other => panic!("unknown case kind {other}"),
         }
     }
